@@ -105,9 +105,14 @@ class World:
         tr.on_write = on_write
 
     # ---- stubbed environment
+    def _addrinfos(self) -> list:
+        # one IPv4 address per configured address: each is its own happy-eyeballs group
+        return [AddrInfo(family=socket.AF_INET, type=socket.SOCK_STREAM, proto=6, sockaddr=IPv4Sockaddr(a, 6053))
+                for a in self.params.addresses]
+
     async def _resolve(self, hosts, port, zc=None):
         if self.resolve_mode == "ok":
-            return [AddrInfo(family=socket.AF_INET, type=socket.SOCK_STREAM, proto=6, sockaddr=IPv4Sockaddr("10.0.0.1", 6053))]
+            return self._addrinfos()
         if self.resolve_mode == "error":
             raise CN.ResolveAPIError("stub resolve error")
         f = self.loop.create_future()
@@ -144,7 +149,7 @@ class World:
     def complete_resolve(self) -> bool:
         for f in self.resolve_futs:
             if not f.done():
-                f.set_result([AddrInfo(family=socket.AF_INET, type=socket.SOCK_STREAM, proto=6, sockaddr=IPv4Sockaddr("10.0.0.1", 6053))])
+                f.set_result(self._addrinfos())
                 return True
         return False
 
